@@ -4,14 +4,14 @@
 # run from a scratch copy of this checkout; result lines go to /tmp/r6/result_<prop>.txt
 set -u
 cd "$(dirname "$0")/.."
-ROOT=$(pwd); prop=$1; wt=${2:-/tmp/r6_$prop}; out=/tmp/r6/result_$prop.txt
+ROOT=$(pwd); prop=$1; R=${ROUND:-r6}; wt=${2:-/tmp/${R}_$prop}; out=/tmp/$R/result_$prop.txt
 : > "$out"
-ev=/tmp/ev_$prop; rm -rf $ev; mkdir -p $ev; cp -a "$ROOT" $ev/verif; rm -f $ev/verif/work/lock
+ev=/tmp/ev_${R}_$prop; rm -rf $ev; mkdir -p $ev; cp -a "$ROOT" $ev/verif; rm -f $ev/verif/work/lock
 for n in 1 2; do
   if [ $n -eq 1 ]; then patch=patch.diff; demo="seeded_demo::"; else patch=patch2.diff; demo="seeded_demo2"; fi
   [ -f "$wt/$patch" ] || { echo "$prop/$n no $patch" >> "$out"; continue; }
   res=$("$ROOT/tools/seeded_try.sh" "$wt" "$wt/$patch" "$demo" "$prop" "$ev/verif" 2>&1)
-  echo "$res" > /tmp/r6/log_${prop}_$n.txt
+  echo "$res" > /tmp/$R/log_${prop}_$n.txt
   echo "$prop/$n $(echo "$res" | grep -E '^CONFIRM' | head -1) | $(echo "$res" | grep -E "^$prop seed=" | tr '\n' ' ')" >> "$out"
 done
 rm -rf $ev
